@@ -7,7 +7,10 @@ _STUB = ["meta service (not needed at shard level)", "SQL layer (statements pars
 
 WORLDS = {
     "S": {"pkg": "engine", "harness": "engine", "test": "TestVerifWorldS", "cpu": 2, "harness_files": ["s_*.go"], "real": _REAL, "stub": _STUB,
-          "extra_overlay": {"engine/immutable/zz_verif_dbg.go": "hooks/immutable_dbg.go"}},
+          "extra_overlay": {"engine/immutable/zz_verif_dbg.go": "hooks/immutable_dbg.go"},
+          "det_note": "API-level log and history digest are identical in every process; where runs differ (C01, C03) it is the verdict of the listed WAL partition-order finding "
+                      "(crash_stale_value): with several WAL partitions the engine removes / replays the partition files from parallel goroutines, their file-system calls reach the journal in an "
+                      "order the seams do not fix, and whether a given crash point shows the (known) stale value depends on that order"},
 }
 
 _CRASH_ASSUME = ["crash model = process kill: completed file-system calls survive, the in-flight write may land as a prefix (byte-granular for WAL records, page-granular elsewhere); power loss is not modelled",
